@@ -1614,11 +1614,12 @@ def gen_index_states(rng, n, batch):
     return [[rng.randrange(2) for _ in range(n)] for _ in range(batch)]
 
 
-def run_all(ctx, thorough, scale=1):
+def run_all(ctx, thorough, scale=1, env=False):
+    """env=True: the reduced sweep of `env_run` (a handful of cases of EVERY call family, same generators)"""
     rng = ctx.rng
     kinds = ["pos", "cplx", "dm"]
     # ---- (a) full spaces
-    nmax = 12 if thorough else 8
+    nmax = 12 if thorough else (5 if env else 8)
     for n in range(1, nmax + 1):
         how = rng.choice(["size", "default", "zero"])
         case = {"kind": "space", "state": kinds[n % 3], "nv": n if how != "size" else rng.choice([n, 1, 3]), "full": True,
@@ -1627,20 +1628,20 @@ def run_all(ctx, thorough, scale=1):
         space_case(ctx, case)
     # every way of passing the size / device arguments, on small spaces: the form of `size` is forced (key "size_form"), the other options
     # (constructor sizes, gpu, the index of subspace_vector, keyword / positional) come from the case's streams
-    for sf in SIZE_SWEEP:
+    for sf in (SIZE_SWEEP[:2] if env else SIZE_SWEEP):
         for i, df in enumerate(DEVICE_FORMS):
             n = rng.randrange(1, 9)      # (up to 8: 2 ** size leaves np.int8 / np.uint8); half of the states have another number of visible units
             space_case(ctx, {"kind": "space", "state": rng.choice(kinds), "nv": n if i % 2 else (2 if n != 2 else 3), "full": True, "size": n, "pass_size": True,
                              "size_form": sf, "device_form": df, **form_seeds(rng)})
     # the DEFAULT size (num_visible as the constructor received it) with num_visible in every form, one by one (key "nv_form")
-    for nf in SIZE_SWEEP:
+    for nf in (SIZE_SWEEP[:1] if env else SIZE_SWEEP):
         for kd in kinds:
             n = rng.randrange(8, 11)
             how = rng.choice(["default", "zero", "omit"])
             space_case(ctx, {"kind": "space", "state": kd, "nv": n, "full": False, "size": 0 if how == "zero" else None, "pass_size": how != "omit",
                              "nsamp": 20, "ks_seed": rng.randrange(10 ** 9), "nv_form": nf, "device_form": rng.choice(DEVICE_FORMS), **form_seeds(rng)})
     # ---- sampled rows, n = 9/13 .. 20 (20 always: the boundary of the guard)
-    big = list(range(nmax + 1, 21))
+    big = [9, 14, 20] if env else list(range(nmax + 1, 21))
     for n in big:
         how = rng.choice(["size", "default"]) if n != 20 else ("size" if rng.random() < 0.5 else "default")
         case = {"kind": "space", "state": rng.choice(kinds), "nv": n if how == "default" else 2, "full": False,
@@ -1652,7 +1653,7 @@ def run_all(ctx, thorough, scale=1):
         space_case(ctx, {"kind": "space", "state": "pos", "nv": 3, "full": False, "size": 20, "nsamp": 100, **form_seeds(rng)})
     # ---- guard / default cases (malformed stream)
     for (size, nv) in [(21, 2), (None, 21), (0, 21), (22, 20), (64, 3), (0, 3), (None, 4), (1000, 2), (21, 21)] + \
-            [(rng.randrange(21, 40), rng.randrange(1, 6)) for _ in range(3 * scale)]:
+            [(rng.randrange(21, 40), rng.randrange(1, 6)) for _ in range(0 if env else 3 * scale)]:
         space_case(ctx, {"kind": "space", "state": rng.choice(kinds), "nv": nv, "size": size, "full": eff_size(size, nv) <= nmax, "nsamp": 20,
                          "device_form": rng.choice(DEVICE_FORMS), **form_seeds(rng)})
     # ---- (a') results handed out earlier are modified in place between calls
@@ -1660,10 +1661,10 @@ def run_all(ctx, thorough, scale=1):
         c = gen_alias_case(rng, thorough)
         c["how"] = how
         alias_case(ctx, c)
-    for _ in range((40 if thorough else 6) * scale):
+    for _ in range((40 if thorough else (2 if env else 6)) * scale):
         alias_case(ctx, gen_alias_case(rng, thorough))
     # ---- (b) subspace_vector
-    for _ in range((200 if thorough else 20) * scale):
+    for _ in range((200 if thorough else (5 if env else 20)) * scale):
         size = rng.choice([None, 0, rng.randrange(1, 21), rng.randrange(1, 41), rng.randrange(21, 61)])
         nv = rng.randrange(1, 8)
         s = eff_size(size, nv)
@@ -1672,11 +1673,11 @@ def run_all(ctx, thorough, scale=1):
         subspace_case(ctx, {"kind": "sub", "state": rng.choice(kinds), "nv": nv, "size": size, "nums": nums,
                             "device_form": rng.choice(DEVICE_FORMS), **form_seeds(rng)})
     # ---- (c) index
-    for _ in range((300 if thorough else 25) * scale):
+    for _ in range((300 if thorough else (6 if env else 25)) * scale):
         n = rng.choice([1, 2, 3, 4, 5, 6, 8, 10, 12, 16, 20, 24, 30])
         index_case(ctx, {"kind": "index", "states": gen_index_states(rng, n, rng.randrange(1, 9))})
     # ---- (d) kron ordering
-    for _ in range((100 if thorough else 12) * scale):
+    for _ in range((100 if thorough else (4 if env else 12)) * scale):
         n = rng.randrange(1, 5)
         D = 2 ** n
         g = lambda: rng.gauss(0, 1)  # noqa: E731
@@ -1687,19 +1688,19 @@ def run_all(ctx, thorough, scale=1):
             case["rho_im"] = [[g() for _ in range(D)] for _ in range(D)]
         kron_case(ctx, case)
     # ---- (d') one-hot at k through every producing / accepting entry point
-    for _ in range((150 if thorough else 24) * scale):
+    for _ in range((150 if thorough else (8 if env else 24)) * scale):
         onehot_case(ctx, gen_onehot_case(rng, thorough))
     # ---- (d'') out-of-domain integer arguments as outcome classes
     for c in [{"kind": "intarg", "state": "pos", "nv": 3, "num": -1, "size": 3}, {"kind": "intarg", "state": "dm", "nv": 2, "num": 5, "size": -1},
               {"kind": "intarg", "state": "cplx", "nv": 2, "num": 2 ** 63, "size": 4}, {"kind": "intarg", "state": "pos", "nv": 2, "num": 2 ** 62 + 1, "size": 65},
               {"kind": "intarg", "state": "pos", "nv": 4, "num": -2 ** 63, "size": 64}]:
         intarg_case(ctx, {**c, **form_seeds(rng)})
-    for _ in range((150 if thorough else 25) * scale):
+    for _ in range((150 if thorough else (5 if env else 25)) * scale):
         intarg_case(ctx, gen_intarg_case(rng))
     # ---- (e) files
     if thorough and scale == 1:
         big_file_case(ctx, {"kind": "bigfile", "seed": rng.randrange(1 << 30), "N": 60000})
-    for _ in range((2000 if thorough else 150) * scale):
+    for _ in range((2000 if thorough else (40 if env else 150)) * scale):
         c = gen_load_case(rng)
         c["kind"] = "load"
         load_case(ctx, c)
@@ -1708,11 +1709,11 @@ def run_all(ctx, thorough, scale=1):
                     "files": {"samples": "1 0\n0 1\n", "psi": "1.000000059604644775390625000001 0.5\n-1.000000059604644775390625000001 2\n",
                               "tr_bases": None, "bases": None}})
     # ---- (f) extract
-    for _ in range((1500 if thorough else 120) * scale):
+    for _ in range((1500 if thorough else (20 if env else 120)) * scale):
         c = gen_extract_case(rng)
         c["kind"] = "extract"
         extract_case(ctx, c)
-    for _ in range((40 if thorough else 10) * scale):
+    for _ in range((40 if thorough else (3 if env else 10)) * scale):
         chain_case(ctx, rng)
 
 
@@ -1721,6 +1722,21 @@ def run(ctx):
     try:
         run_all(ctx, ctx.tier == "thorough")
     finally:
+        cleanup()
+
+
+def env_run(ctx, env_name):
+    """the same property for a caller who changed a process-global setting (harness/common.py ENVS: default dtype float64, no_grad,
+    another working directory): a reduced sweep over EVERY call family of the property (Hilbert-space functions on all three state
+    classes, index helper, rotation helpers, one-hot family, both loaders, extract_refbasis_samples, the load -> extract chain), with
+    the states constructed INSIDE the environment (the cache of state objects is emptied first and restored afterwards)"""
+    saved = dict(_STATES)
+    _STATES.clear()
+    try:
+        run_all(ctx, False, env=True)
+    finally:
+        _STATES.clear()
+        _STATES.update(saved)
         cleanup()
 
 
